@@ -274,7 +274,7 @@ func lawsFS14(s sink, c case14, d *docCtx14) (string, bool) {
 		return e
 	})
 	if cls == ClsPanic {
-		s.Violation(OracleViolation{Law: "no_panic", Class: "C14/panic-fieldspec:" + strings.ReplaceAll(firstN(msg, 50), " ", "_"),
+		s.Violation(OracleViolation{Law: "no_panic", Class: "C14/panic-fieldspec:" + strings.ReplaceAll(c14FirstN(msg, 50), " ", "_"),
 			Detail: "fieldspec.Filter panics: " + msg, Replay: c})
 		return cls, false
 	}
@@ -347,7 +347,7 @@ func lawsFSSlice14(s sink, c case14, d *docCtx14) (string, bool) {
 		return e
 	})
 	if cls == ClsPanic {
-		s.Violation(OracleViolation{Law: "no_panic", Class: "C14/panic-fieldspec:" + strings.ReplaceAll(firstN(msg, 50), " ", "_"),
+		s.Violation(OracleViolation{Law: "no_panic", Class: "C14/panic-fieldspec:" + strings.ReplaceAll(c14FirstN(msg, 50), " ", "_"),
 			Detail: "fsslice.Filter panics: " + msg, Replay: c})
 		return cls, false
 	}
@@ -387,7 +387,7 @@ func lawsFSSlice14(s sink, c case14, d *docCtx14) (string, bool) {
 	return cls, len(rec) > 0
 }
 
-func firstN(s string, n int) string {
+func c14FirstN(s string, n int) string {
 	if len(s) > n {
 		return s[:n]
 	}
